@@ -63,6 +63,7 @@ def hexS (s : String) : String := hexOfStr s
 def showTree : Tree → String
   | .file c => "f:" ++ hexS c
   | .dir es => "d:" ++ ",".intercalate (es.map fun e => e.1 ++ "=" ++ hexS e.2)
+  | .filex c => "fx:" ++ hexS c
   | .fileOpt c none => "f:" ++ hexS c
   | .fileOpt c (some e) => "f:" ++ hexS c ++ "+x:" ++ hexS e
 
@@ -88,6 +89,7 @@ def step (st : St) (line : String) : St × String :=
       | "catn", [] => some .catn
       | "fg", [] => some .fg
       | "opt", [] => some .opt
+      | "catx", [] => some .catx
       | "const", [h] => (strOfHex h).map .const
       | "text", [h] => (strOfHex h).map .text
       | _, _ => none
